@@ -66,29 +66,6 @@ func (g *gen) bounds(s *S) {
 	}
 }
 
-// safeLen avoids [1]T for a pointer-shaped T: such an array is stored directly in an interface word, and
-// reflect.Copy (go1.23) reads a non-addressable one through the element pointer - serix's sliceFromArray then
-// faults (SIGSEGV, not recoverable) when the array is a Go-map value.  A Go runtime matter, outside the model.
-func safeLen(n int, e *S) int {
-	if n != 1 {
-		return n
-	}
-	switch e.K {
-	case "ptr", "u256", "map":
-		return 2
-	case "barr", "tb":
-		if e.P {
-			return 2
-		}
-	case "arr":
-		if safeLen(e.N, e.E) != e.N || e.N == 1 {
-			return 2
-		}
-	}
-
-	return n
-}
-
 func mk(k string) *S { return &S{K: k, N: -1, Code: -1} }
 
 func (g *gen) typedBytes(p bool) *S {
@@ -226,7 +203,6 @@ func (g *gen) typ(depth int) *S {
 	case x < 32:
 		s := mk("arr")
 		s.N, s.E = g.rng.Intn(4), elem()
-		s.N = safeLen(s.N, s.E)
 
 		return s
 	case x < 48:
@@ -257,7 +233,6 @@ func (g *gen) typ(depth int) *S {
 		case 1:
 			s.E = mk("arr")
 			s.E.N, s.E.E = g.rng.Intn(4), elem()
-			s.E.N = safeLen(s.E.N, s.E.E)
 		default:
 			s.E = g.structS(depth, g.rng.Chance(3, 10))
 		}
